@@ -252,6 +252,9 @@ def _list_guards(ck, fi):
     out = []
     for n in cfg.stmt_nodes(lambda n: n.kind == "for"):
         tgt = n.ast.target
+        scanned = n.ast.iter
+        if isinstance(tgt, ast.Tuple) and len(tgt.elts) == 2 and all(isinstance(x, ast.Name) for x in tgt.elts) and q.is_call(n.ast.iter, "enumerate") and len(n.ast.iter.args) >= 1:
+            tgt, scanned = tgt.elts[1], n.ast.iter.args[0]  # the index is irrelevant, every element is visited
         if not isinstance(tgt, ast.Name):
             continue
         for t in cfg.stmt_nodes(lambda m: m.kind == "test"):
@@ -261,7 +264,7 @@ def _list_guards(ck, fi):
             keep0 = {q.dotted(c.func.value) for c in q.calls(fi.node) if isinstance(c.func, ast.Attribute) and c.func.attr in ("append", "extend", "insert") and q.dotted(c.func.value)}
             g = regex_guard(ck.repo, fi, expand_locals(fi, t.ast, keep=keep0 | {tgt.id}))
             if g is not None and g.var == tgt.id:
-                out.append((n, t, g, n.ast.iter, None))
+                out.append((n, t, g, scanned, None))
     # containers that are built up step by step keep their name (expanding them would replace the list by its
     # initial literal); everything else is looked through
     keep = {q.dotted(c.func.value) for c in q.calls(fi.node) if isinstance(c.func, ast.Attribute) and c.func.attr in ("append", "extend", "insert") and q.dotted(c.func.value)}
@@ -290,19 +293,20 @@ def _list_guards(ck, fi):
 
 def _probe_final_guard(ck, fi):
     """Concrete evaluation of write_headers (server mode) on responses with a lone CR / LF / NUL in the reason phrase,
-    in a header value and in a header name.  Returns (where, byte, written bytes) for every probe whose bytes reach
-    stream.write; raises AnalysisError if not even a clean response can be followed to the write."""
+    in a header value and in a header name — also behind a multi-valued header, where the number of header lines
+    differs from the number of distinct names.  Returns (where, byte, written bytes) for every probe whose bytes
+    reach stream.write on a fully decided path; None if not even a clean response can be followed to the write."""
     ps = fi.params()
     if len(ps) < 4:
         raise AnalysisError("write_headers signature changed")
     sl, hd = ps[1], ps[2]
     getall = [c for c in q.calls(fi.node) if isinstance(c.func, ast.Attribute) and c.func.attr == "get_all" and q.dotted(c.func.value) == hd]
     if not getall:
-        raise AnalysisError("write_headers does not read the header lines through %s.get_all(): cannot probe the guard" % hd)
+        return None
     key = "call:" + q.unparse(getall[0])
     writes = {n.id: c for n, c in call_sites(fi, "self.stream.write") if not isinstance(q.arg(c, 0, "data"), ast.Constant)}
     if not writes:
-        raise AnalysisError("write_headers: stream.write(<header block>) not found")
+        return None
     known = {m: None for m in pure_self_methods(ck.repo, H1, "HTTP1Connection")}
     known["_format_chunk"] = None
     resolver = make_resolver(ck.repo, H1, "HTTP1Connection")
@@ -313,6 +317,14 @@ def _probe_final_guard(ck, fi):
         except AnalysisError:
             return None
 
+    # What iterating the header container yields: verified on HTTPHeaders.__iter__ (one entry per distinct name, in
+    # insertion order) — only then is the ordered-names model used; otherwise the container stays an unordered set.
+    ordered = False
+    if ck.repo.has_func(HU, "HTTPHeaders.__iter__"):
+        it = ck.repo.func(HU, "HTTPHeaders.__iter__")
+        rets = [n for n in q.walk_body(it.node) if isinstance(n, ast.Return) and n.value is not None]
+        ordered = len(rets) == 1 and q.is_call(rets[0].value, "iter") and len(rets[0].value.args) == 1 and q.dotted(rets[0].value.args[0]) == "self._as_list"
+
     def run(reason, pairs):
         seen = []
 
@@ -322,28 +334,39 @@ def _probe_final_guard(ck, fi):
                 seen.append((try_fold(q.arg(writes[n.id], 0, "data"), env), bool(env.get("@undecided"))))
             return None
 
+        names = []
+        for n_, _v in pairs:
+            if n_ not in names:
+                names.append(n_)
         init = module_constants(fi)
         init.update(class_constants(ck.repo, H1, "HTTP1Connection"))
         init.update({"self.is_client": False, "self._request_start_line.version": "HTTP/1.1", "self._request_start_line.method": "GET",
                 "self._disconnect_on_finish": False, sl + ".code": 200, sl + "[1]": 200, sl + "[2]": reason, sl + ".reason": reason,
-                hd: frozenset(n_ for n_, _v in pairs), key: tuple(pairs), "call:self.stream.closed()": False, ps[3]: None, "@resolve": resolver, "@rx": rx_of})
+                hd: tuple(names) if ordered else frozenset(names), "@names-model:" + hd: ordered,
+                key: tuple(pairs), "call:self.stream.closed()": False, ps[3]: None, "@resolve": resolver, "@rx": rx_of})
         peval(fi.cfg, init, hook=hook, known_self_methods=known, pure_methods=("get_all",), track=lambda t: True)
         return seen
 
     clean = [v for v, und in run("OK", (("Content-Length", "0"), ("X-Probe", "v"))) if not und]
     if not clean or any(v is UNK or not isinstance(v, bytes) for v in clean):
-        raise AnalysisError("write_headers: cannot be followed concretely to stream.write on a clean response (an undecidable branch lies on the way): the guard is of a shape this rule cannot decide")
+        return None  # write_headers cannot be followed concretely on a clean response: no evidence either way
     out = []
+    CL = ("Content-Length", "0")
     for byte in (LF, CR, NUL):
         ch = chr(byte)
-        for where, reason, pairs in (("the reason phrase", "OK" + ch + "x", (("Content-Length", "0"),)),
-                                     ("a header value", "OK", (("Content-Length", "0"), ("X-Probe", "a" + ch + "b"))),
-                                     ("a header name", "OK", (("Content-Length", "0"), ("X" + ch + "Probe", "v")))):
+        bad_value, bad_name = ("X-Probe", "a" + ch + "b"), ("X" + ch + "Probe", "v")
+        variants = [("the reason phrase", "OK" + ch + "x", (CL,)),
+                    ("a header value", "OK", (CL, bad_value)),
+                    ("a header name", "OK", (CL, bad_name)),
+                    # several lines for one name: the number of lines differs from the number of distinct names
+                    ("the value of the last header line after a multi-valued header", "OK", (CL, ("X-Multi", "1"), ("X-Multi", "2"), bad_value)),
+                    ("the name of the last header line after a multi-valued header", "OK", (CL, ("X-Multi", "1"), ("X-Multi", "2"), ("X-Multi", "3"), bad_name)),
+                    ("a later value of a multi-valued header", "OK", (CL, ("X-Multi", "1"), ("X-Multi", "a" + ch + "b"))),
+                    ("the first header line", "OK", (bad_value, CL, ("X-Multi", "1"), ("X-Multi", "2")))]
+        for where, reason, pairs in variants:
             for data, und in run(reason, pairs):
-                if und:
+                if und or data is UNK or not isinstance(data, bytes):
                     continue
-                if data is UNK or not isinstance(data, bytes):
-                    raise AnalysisError("write_headers: probe result cannot be evaluated")
                 if ch.encode("latin1") in data.replace(b"\r\n", b""):
                     out.append((where, byte, data))
                     break
@@ -355,18 +378,20 @@ def _final_guard(ck):
     fi = F(ck, H1, "HTTP1Connection.write_headers")
     cfg = fi.cfg
     loops = _list_guards(ck, fi)
+    # Whatever the shape of the guard, it can be *refuted*: evaluate write_headers concretely on responses whose start
+    # line / a header line carries a lone CR, LF or NUL (also behind a multi-valued header) and see whether the bytes
+    # reach stream.write on a path where every branch was decided.  A counterexample is a violation.
+    cex = _probe_final_guard(ck, fi)
+    for where, byte, data in (cex or []):
+        if byte == NUL:
+            continue  # NUL is the name rule's business (C07.name-ctl); CR and LF are what this guard must stop
+        ck.ob("C07.final-guard", fi, fi.node, False, "a lone %s in %s is rejected before the header block is written (concrete counterexample: write_headers hands %r to stream.write)" % (_fmt([byte]), where, data[:90]),
+              construct="header block with a lone %s in %s reaches stream.write" % (_fmt([byte]), where))
+    if cex and any(byte != NUL for _w, byte, _d in cex):
+        return set()  # nothing can be relied upon from a guard that was refuted
     if not loops:
-        # A guard of another shape (e.g. a test on the serialized block).  It cannot be *proved* by this rule, but it
-        # can be *refuted*: evaluate write_headers concretely on a response whose start line / a header line carries a
-        # lone CR or LF and see whether the bytes reach stream.write.  A counterexample is a violation; none found
-        # leaves the guard undecided (fail closed).
-        cex = _probe_final_guard(ck, fi)
-        for where, byte, data in cex:
-            ck.ob("C07.final-guard", fi, fi.node, False, "a lone %s in %s is rejected before the header block is written (concrete counterexample: write_headers hands %r to stream.write)" % (_fmt([byte]), where, data[:80]),
-                  construct="header block with a lone %s in %s reaches stream.write" % (_fmt([byte]), where))
-        if cex:
-            return set()  # nothing can be relied upon from a guard that was refuted
-        raise AnalysisError("write_headers: no scan of the header lines with a regex was recognised (for-loop with a guard, next(filter(..)), any(..)), and concrete probing found no counterexample: the guard is of a shape this rule cannot decide")
+        raise AnalysisError("write_headers: no scan of the header lines with a regex was recognised (for-loop with a guard, next(filter(..)), any(..))%s: the guard is of a shape this rule cannot decide"
+                            % (", and concrete probing found no counterexample" if cex is not None else ", and the function cannot be followed concretely"))
     writes = [(n, c) for n, c in call_sites(fi, "self.stream.write") if not isinstance(q.arg(c, 0, "data"), ast.Constant)]
     ck.floor("C07.final-guard", len(writes), 1, "stream.write(<header block>) in write_headers")
     detected = set()
@@ -652,6 +677,7 @@ MUTANTS = [
     ("header value check applied to the first 4096 characters only", _in(WEB, RH + "._convert_header_value", replace_expr(lambda n: isinstance(n, ast.Call) and q.call_attr(n) == "fullmatch", lambda n: ast.Call(func=n.func, args=[parse_expr("retval[:4096]")], keywords=[]))), "C07.value-chars"),
     ("server side scans only the status line (seeded C07-adv3)", _in(H1, "HTTP1Connection.write_headers", replace_stmt(lambda st: isinstance(st, ast.For) and "CR_OR_LF_RE" in _u(st), lambda st: [ast.For(target=st.target, iter=parse_expr("lines if self.is_client else lines[:1]"), body=st.body, orelse=[])])), "C07.final-guard"),
     ("per-line guard replaced by a CRLF count on the serialized block (seeded C07-adv4: a lone CR or LF passes)", _in(H1, "HTTP1Connection.write_headers", lambda root: _block_level_guard(root)), "C07.final-guard"),
+    ("header lines scanned by zip(headers, lines[1:]) — one per distinct name, trailing lines unscanned (seeded C07-adv5)", _in(H1, "HTTP1Connection.write_headers", lambda root: _zip_scan(root)), "C07.final-guard"),
     ("final guard only logs", _in(H1, "HTTP1Connection.write_headers", _guard_logs_only), "C07.final-guard"),
     ("send_error stores the reason itself", _in(WEB, RH + ".send_error", replace_stmt(lambda st: "self.set_status(status_code, reason=reason)" in _u(st), lambda st: [parse_stmt("self._status_code = status_code"), parse_stmt("self._reason = reason or 'Unknown'")])), "C07.reason"),
 ]
@@ -689,5 +715,21 @@ def _block_level_guard(root):
                         parse_stmt("_block = b'\\r\\n'.join(%s) + b'\\r\\n\\r\\n'" % lst),
                         ast.parse("if _block.count(b'\\r\\n') != len(%s) + 1 or b'\\x00' in _block:\n    raise ValueError('Illegal characters in headers')" % lst).body[0],
                     ]
+                    return True
+    return False
+
+
+def _zip_scan(root):
+    ps = [a.arg for a in root.args.args]
+    for node in ast.walk(root):
+        body = getattr(node, "body", None)
+        if isinstance(body, list):
+            for i, st in enumerate(body):
+                if isinstance(st, ast.For) and "CR_OR_LF_RE" in _u(st) and isinstance(st.target, ast.Name):
+                    lst, var = _u(st.iter), st.target.id
+                    first = ast.parse("if CR_OR_LF_RE.search(%s[0]):\n    raise ValueError('Illegal characters in start line')" % lst).body[0]
+                    loop = ast.For(target=ast.Tuple(elts=[ast.Name(id="_nm", ctx=ast.Store()), ast.Name(id=var, ctx=ast.Store())], ctx=ast.Store()),
+                                   iter=parse_expr("zip(%s, %s[1:])" % (ps[2], lst)), body=st.body, orelse=[])
+                    body[i:i + 1] = [first, loop]
                     return True
     return False
